@@ -86,7 +86,17 @@ LEVEL_TEXT = ("Lean theorems over the integer/rational model of load_clip, load_
               "is applied only to arrays whose spacing is their advertised step (arrays from a file always are, "
               "C15_loaded_exact; resampled ones iff nothing was truncated, C15_resample_exact_iff) every array produced - "
               "loaded, resampled, sliced, looked at again, both axes of every spectrogram for every padded / boundary - "
-              "is truthful (C15_session_truthful).")
+              "is truthful (C15_session_truthful). Follow-up (wave 5, the file system is state): a one-cell-per-path "
+              "file system of WAV files (frames, channels, header rate) with the calls put (the file is rewritten), rm, "
+              "Recording.from_file, load_clip, load_recording (SoundeventModel/Audio/FileSys.lean): after any history, once "
+              "the file under a path has been rewritten - longer, shorter, another samplerate or channel count, other "
+              "samples of equal length - every read of that path answers for the new content, whatever was loaded before "
+              "and whatever other paths were written since (C15_fs_load_after_rewrite; reads never write, "
+              "C15_fs_reads_never_write); a take (rewrite, from_file, load_clip, load_recording) is history-free "
+              "(C15_fs_take, C15_fs_history_free) and therefore every history of takes answers step by step as the pure "
+              "model on the content of that step (C15_fs_history, an instance of History.historyFree_iff), the loaded "
+              "recording being exactly the frames written at that step (C15_fs_history_recording); an implementation that "
+              "keeps sound files open per path is proved not history-free on a concrete history.")
 LEVEL_NOTE = ("Unmodelled: soundfile I/O, scipy's STFT / resample numerics, numpy `arange` in floats (their contracts - "
               "seek+read with zero fill, segment count and times of stft, `t0 + dt*n/num*k` of resample - are formulas of "
               "the model and are compared on every run); binary64 rounding in front of `int()`/`floor` (inputs whose "
@@ -99,7 +109,9 @@ LEVEL_NOTE = ("Unmodelled: soundfile I/O, scipy's STFT / resample numerics, nump
               "generated sessions / call sequences (every array handed out earlier is looked at again after every later "
               "call: values, coordinates, attrs of the array and of its coordinates) and, for the four functions' own "
               "statements, by the symbolic traces (which also check that the traced function wrote nothing into its "
-              "argument). Slices / copies are xarray's (`isel`, `copy`), modelled as the corresponding part of the axis. "
+              "argument). That every load opens the file as it is on disk now (no handle, header or content kept per "
+              "path) is likewise observed, on generated histories in which the harness rewrites the file between loads "
+              "(operation file_history, judged by the Lean file-system model). Slices / copies are xarray's (`isel`, `copy`), modelled as the corresponding part of the axis. "
               "Numeric argument types (int, float, numpy float64 / float32 / int64 / int32) and construction paths "
               "(constructor, model_validate, JSON, model_copy, assignment) are exercised, not modelled: the model sees "
               "the value.")
@@ -107,7 +119,8 @@ TECHNIQUE = ("Lean 4 proof over model; symbolic traces of the audio functions' o
              "symbolic) proved equal to the model's plans for all inputs on every run; signature table tied to "
              "inspect.signature (Tie 1); differential correspondence on real WAV files (exact / round-once / tolerance) "
              "for single calls, call sequences on shared objects and sessions of derived arrays judged by the Lean "
-             "session model; theorem-backed axis monitor on implementation output")
+             "session model, and histories in which the WAV file under a path is rewritten between loads judged by the Lean "
+             "file-system model; theorem-backed axis monitor on implementation output")
 RULE = ("clips x files (1-3 channels, 15 file rates incl. odd and power-of-two ones, expansion 1/2/10) on and off sample "
         "boundaries, past the end of file, zero length; exhaustive small scope; recordings; spectrogram and resample "
         "pipelines with whole and fractional numbers of samples, windows shorter than, as long as and longer than the "
@@ -126,7 +139,13 @@ RULE = ("clips x files (1-3 channels, 15 file rates incl. odd and power-of-two o
         "with results edited by the caller and re-read after later calls (harness/history.py), sessions of derived arrays "
         "(load -> spectrogram -> look again -> resample -> resample -> spectrogram, options followed by plain calls, a "
         "result edited then the same call again, slices, copies; skeletons + random derivation graphs), every array "
-        "produced judged by the Lean session model and re-read after every later call; non-trivial = the implementation "
+        "produced judged by the Lean session model and re-read after every later call; file histories: the WAV file "
+        "under a path rewritten between loads (longer, much longer, shorter, other samplerate, other channel count, other "
+        "samples of equal length, the same content, another expansion factor; in place / renamed over / unlinked first; "
+        "2-4 contents per path, one or two paths), the Recording re-made by from_file / the constructor or the earlier "
+        "object brought up to date by assignment / model_copy(update), before and after every rewrite the same clips, a "
+        "clip of frames that exist only now, a clip around the old end, the whole file, load_recording; arrays loaded "
+        "before a rewrite re-read after it; non-trivial = the implementation "
         "returned an array with at least one frame / coordinate (a session: at least one step did); distinct = distinct "
         "(operation, input)")
 TRUSTED = ["soundfile / libsndfile: `seek` + `read(frames, always_2d, fill_value=0)`; PCM_16 codes read back as code/32768",
@@ -141,6 +160,8 @@ TRUSTED = ["soundfile / libsndfile: `seek` + `read(frames, always_2d, fill_value
            "the start when there is no boundary extension (formulas of the model, compared each run)",
            "xarray: `isel(time=slice(a, b))` keeps that part of the coordinate and its attrs; `copy(deep=True)` copies; "
            "DataArray / Variable constructors copy the attrs dict they are given",
+           "the file system: soundfile.write(path) / os.replace / os.remove replace the content of exactly that path "
+           "(the harness reads nothing back: it judges by the PCM codes it wrote)",
            "pydantic: Clip / Recording accept int, numpy scalars for float fields; model_validate / model_validate_json / "
            "model_copy give equal objects"]
 ASSUMPTIONS = ["binary64 arithmetic is exact on the grids used (dyadic times with <= 24 fractional bits, integer rates < 2^22)",
@@ -148,6 +169,8 @@ ASSUMPTIONS = ["binary64 arithmetic is exact on the grids used (dyadic times wit
                "truthfulness theorems of resample assume an input whose spacing is its advertised step (`hdt`); outside it "
                "the axis is monitored and the known finding C15-2 (specific matcher) absorbs exactly those inputs; the "
                "spectrogram theorems have no such hypothesis (fix C15-3 assumed present: `nperseg` clamped to the audio)",
+               "a rewrite of a file advances its modification time by at least 1 ms (the harness sets it when the clock "
+               "did not): a cache validated by (mtime, size) counts as correct, one validated by size or by whole seconds does not",
                "clips start inside the file or at its very end, start >= 0 (otherwise libsndfile cannot seek: error on both sides)"]
 NOT_COMPARED = ["spectrogram / resampled sample values (scipy numerics; the property pins the axes)",
                 "error messages; which exception a failed seek raises (any exception <-> model `seek`)",
